@@ -15,7 +15,7 @@ HARD = [["k $$v"], ["k $$"], ["k a$$b$$"], ["%import a$$b"], ["k <v>"], ["k %v"]
         ["K v", "k w"], ["<A B>", "</a>"], ["<a/ >"], ["<a b/ >"], ["<a/ b>", "</a/>"], ["<a/ >", "</a/>"], ["<a b/ >", "</a>"], ["<x>", "<a/ >", "k v", "</a/>", "</x>"], ["<a>", "<b>", "<c>", "<d/>", "</c>", "</b>", "</a>"],
         ["<a>", "%import x.y", "</a>", "%import z"], ["<a>", "k v", "<b/>", "j w", "</a>"], ["é ü", "<é ü>", "</é>"],
         ["<a $$b>", "</a>"], ["<a b$$c/>"], ["<a $$$$x>", "k v", "</a>"], ["<x>", "<a $$>", "</a>", "</x>"], ["<a ${b}>".replace("$", "$$"), "</a>"],
-        ["k " + "v" * 9000], ["<a>", "        k  " + " ".join("host%d" % i for i in range(1500)), "</a>"], ["<a>", "<b>", "\t\t\tk " + "x" * 4090 + " y z", "</b>", "</a>"],
+        ["k " + "v" * 9000], ["<a>", "k " + " ".join("h%d" % i for i in range(4000)), "</a>"], ["<a>", "<b>", "k " + " ".join("h%d" % i for i in range(900)), "</b>", "</a>"], ["<a>", "        k  " + " ".join("host%d" % i for i in range(1500)), "</a>"], ["<a>", "<b>", "\t\t\tk " + "x" * 4090 + " y z", "</b>", "</a>"],
         ["k v\x0cw"], ["k  v   w"], ["<a n>", "</a>", "<a n>", "</a>"], ["k </a>"], ["k $$(x)"], ["k ${a}".replace("$", "$$")]]
 
 
